@@ -3,9 +3,13 @@
 usage: make_prompt_equiv.py <PID> <worktree>"""
 import json, sys
 pid, wt = sys.argv[1], sys.argv[2]
+LIGHT = '--light' in sys.argv     # round 5: everyday small edits instead of restructurings
 p = [json.loads(l) for l in open('/verif/properties.jsonl') if json.loads(l)['id'] == pid][0]
 mech = '\n'.join('- %s (%s)' % (m['name'], m['where']) for m in p['anchors']['mechanism'])
-print(f"""You are helping to evaluate a verification tool by producing realistic BEHAVIOUR-PRESERVING refactorings of a Rust library: edits a maintainer might make that do not change what the code computes. Work ONLY inside the git worktree {wt} (a checkout of the library awslabs/rust-smt-strings: SMT-LIB strings and regular expressions, derivatives, DFA compilation, minimization, character partitions). Do not look at or touch anything outside that directory (in particular not /verif and not /repo). There is no network; build with `cargo build --offline` and run the test suite with `cargo test --offline` inside {wt}.
+kinds_heavy = None
+if LIGHT:
+    import re as _re
+_text = f"""You are helping to evaluate a verification tool by producing realistic BEHAVIOUR-PRESERVING refactorings of a Rust library: edits a maintainer might make that do not change what the code computes. Work ONLY inside the git worktree {wt} (a checkout of the library awslabs/rust-smt-strings: SMT-LIB strings and regular expressions, derivatives, DFA compilation, minimization, character partitions). Do not look at or touch anything outside that directory (in particular not /verif and not /repo). There is no network; build with `cargo build --offline` and run the test suite with `cargo test --offline` inside {wt}.
 
 Here is a semantic property the library satisfies, with the code it rests on:
 
@@ -30,4 +34,12 @@ For each refactoring k = 1, 2, 3 create, inside the directory {wt}/refactorings/
   - r<k>.diff : a unified diff (output of `git diff` run in {wt}) of the refactoring alone relative to the unmodified checkout, touching only files under src/ ;
   - r<k>.md   : 5-10 lines: what was changed, and the argument why behaviour is unchanged for ALL inputs (not just the tested ones), plus the commands you ran.
 
-You must actually verify (b) and (c) yourself for each refactoring (apply it, `cargo build --offline`, `cargo test --offline`, then `git checkout -- src`). When you finish, the worktree must be clean except for the untracked directory refactorings/ , and `git -C {wt} diff` must be empty. Report at the end a short list: for each refactoring the function(s) changed and its kind.""")
+You must actually verify (b) and (c) yourself for each refactoring (apply it, `cargo build --offline`, `cargo test --offline`, then `git checkout -- src`). When you finish, the worktree must be clean except for the untracked directory refactorings/ , and `git -C {wt} diff` must be empty. Report at the end a short list: for each refactoring the function(s) changed and its kind."""
+if LIGHT:
+    a = _text.index('  (d) is a realistic maintenance edit')
+    b = _text.index('For each refactoring k = 1, 2, 3 create')
+    _text = _text[:a] + """  (d) is a SMALL everyday maintenance edit of the kind that makes up most commits, for example: renaming local variables, parameters or closure parameters to clearer names; adding or rewording comments and doc comments; reordering two independent `let` statements; naming a sub-expression with a `let` (or inlining a single-use `let`); adding an explicit type annotation or a turbofish; replacing `x as usize` by `usize::try_from(x).unwrap()` only where it provably cannot fail, or `a.len() == 0` by `a.is_empty()`; writing `a <= b` as `b >= a`; replacing `return x;` at the end of a function by the tail expression `x` (or the reverse); replacing `if c { true } else { false }` by `c`; adding a `debug_assert!` that restates an invariant which provably always holds; adding `#[inline]` or `#[must_use]`; replacing a magic number by a private `const`; destructuring a tuple or struct in a `let` or in a closure parameter instead of using `.0` / `.1` / field access; using `Self` instead of the type name; replacing `&v[..]` by `v.as_slice()`; changing `for i in 0..n` to `for i in 0..n` with the bound hoisted into a local.
+The three edits must be of different kinds and touch different functions where possible. Each should change between 3 and 25 lines. Do NOT restructure loops, do NOT extract or inline functions, do NOT rename functions, types, fields or anything public, do NOT change any documented panic or any algorithm.
+
+""" + _text[b:]
+print(_text)
